@@ -21,6 +21,18 @@ exiting, or `quit`, so every other dispatcher event is *not enabled* (`ignored`)
 `sort.Slice` over the map-ordered free list leaves ties in any order, so
 `accept p` is enabled for every free `p` of minimal score.
 
+"Free" is the dispatcher's bookkeeping (`activeJob == nil`), not "receiving on
+its job channel": a worker that has just delivered a result needs a moment to
+get back to its idle select.  The offer `select { NewJob() <- next | <-onExit |
+<-quit }` has no `default`, so the dispatcher stays with the best-ranked free
+worker until that worker takes the job or exits; `offerLoop` below is that loop
+with what each worker does (and how long it takes) as an explicit argument, and
+`accept p` is its outcome.
+
+The ranking is keyed by address and entries are never removed
+(`Gen.Dispatcher.rankRemovals = 0`): `rankRun` is the `PeerRanking` object as a
+state machine of its own, driven directly as well.
+
 A worker whose `Run` has returned stays in the Go map until the dispatch loop
 next walks over it (`<-r.onExit` arm); that lazy removal is unobservable, the
 model keeps an `exited` flag and never offers to such a worker.
@@ -144,6 +156,36 @@ def resetRank (rank : List (Nat × Nat)) (p : Nat) : List (Nat × Nat) :=
   | none => rank
   | some _ => setScore rank p Gen.Dispatcher.defaultScore
 
+/-- the `PeerRanking` object as a state machine: what the work manager (or anyone) may call on it -/
+inductive RankOp where
+  | add (p : Nat)
+  | reward (p : Nat)
+  | punish (p : Nat)
+  | reset (p : Nat)
+deriving DecidableEq, Repr
+
+def RankOp.addr : RankOp → Nat
+  | .add p => p
+  | .reward p => p
+  | .punish p => p
+  | .reset p => p
+
+def rankStep (r : List (Nat × Nat)) : RankOp → List (Nat × Nat)
+  | .add p => addPeer r p
+  | .reward p => reward r p
+  | .punish p => punish r p
+  | .reset p => resetRank r p
+
+def rankRun (r : List (Nat × Nat)) : List RankOp → List (Nat × Nat)
+  | [] => r
+  | o :: os => rankRun (rankStep r o) os
+
+/-- `Order` yields some permutation of its argument with non-decreasing scores (`sort.Slice`: ties in any order) -/
+def scoresAscending (r : List (Nat × Nat)) : List Nat → Bool
+  | [] => true
+  | [_] => true
+  | a :: b :: rest => decide (scoreOf r a ≤ scoreOf r b) && scoresAscending r (b :: rest)
+
 /-! ### maps -/
 
 def findB (bs : List Batch) (b : Nat) : Option Batch := bs.find? (fun x => x.id == b)
@@ -169,6 +211,50 @@ def offering (s : State) : Bool := !s.work.isEmpty && !(freeLive s).isEmpty
 def bestFree (s : State) (p : Nat) : Bool :=
   (freeLive s).any (fun w => w.addr == p) &&
   (freeLive s).all (fun q => decide (scoreOf s.rank p ≤ scoreOf s.rank q.addr))
+
+/-! ### the offer loop, one worker at a time
+
+`for _, p := range freeWorkers { select { case r.w.NewJob() <- next: …; continue Loop
+                                           case <-r.onExit: delete(workers, p); continue
+                                           case <-w.quit: return } }`
+over the ranked list of free workers.  The select has no `default`
+(`Gen.Dispatcher.jobOfferSelectsWithDefault = 0`). -/
+
+/-- what a free worker does while the dispatcher is blocked offering it the head job -/
+inductive Fate where
+  | takes (after : Nat)   -- it receives the job `after` scheduling steps after the offer began: `0` = it was already
+                          -- receiving on its job channel; `n+1` = free by the bookkeeping but not (yet) receiving
+  | exits                 -- its `Run` returns first (`onExit` is closed)
+deriving DecidableEq, Repr
+
+/-- the worker is at its job channel at the moment the offer begins -/
+def Fate.receiving : Fate → Bool
+  | .takes 0 => true
+  | _ => false
+
+/-- The blocking offer loop over the ranked list: the first worker that does not exit gets the job, however long it
+takes to get to its channel.  How long (`after`) is deliberately not looked at. -/
+def offerLoop (fate : Nat → Fate) : List Nat → Option Nat
+  | [] => none
+  | p :: ps =>
+    match fate p with
+    | .takes _ => some p
+    | .exits => offerLoop fate ps
+
+/-- What a non-blocking first pass over the ranked list would do (the shape the property rules out): the first worker
+that is receiving right now gets the job; only if none is, the blocking loop runs. -/
+def offerLoopEager (fate : Nat → Fate) (l : List Nat) : Option Nat :=
+  match l.find? (fun p => (fate p).receiving) with
+  | some p => some p
+  | none => offerLoop fate l
+
+/-- `l` is what `Order(freeWorkers)` may hand the offer loop in state `s`: every free running worker is in it, an entry
+that does not exit is a free running worker (the others are workers whose `Run` has returned and which were not
+pruned yet), and scores are non-decreasing along the list. -/
+structure RankedFree (s : State) (fate : Nat → Fate) (l : List Nat) : Prop where
+  all    : ∀ w ∈ freeLive s, w.addr ∈ l
+  live   : ∀ p ∈ l, fate p ≠ .exits → (freeLive s).any (fun w => w.addr == p) = true
+  sorted : l.Pairwise (fun a b => scoreOf s.rank a ≤ scoreOf s.rank b)
 
 /-! ### the verdict paths -/
 
